@@ -19,7 +19,7 @@ pub fn var_id() -> NodeId {
     NodeId::new(2, "verif-subs-var")
 }
 
-fn ensure_variable(fx: &ServerFixture) {
+pub fn ensure_variable(fx: &ServerFixture) {
     let mut asp = fx.address_space.write();
     if !asp.node_exists(&var_id()) {
         VariableBuilder::new(&var_id(), "verif-subs-var", "verif-subs-var")
